@@ -441,8 +441,9 @@ class _AssertFirst(ast.NodeTransformer):
         idx = [k for k, s_ in enumerate(b) if isinstance(s_, ast.If) and 'Taper_Error' in ast.unparse(s_)]
         if idx:
             k = idx[0]
-            # move the following assert in front of the Taper_Error test
-            if k + 1 < len(b) and isinstance(b[k + 1], ast.Assert):
+            # move the following check of the taper maximum (an assertion before a08ca5a) in front of the Taper_Error test
+            nxt = b[k + 1] if k + 1 < len(b) else None
+            if isinstance(nxt, ast.Assert) or (isinstance(nxt, ast.If) and any(isinstance(x, ast.Raise) for x in ast.walk(nxt))):
                 b[k], b[k + 1] = b[k + 1], b[k]
         return node
 
